@@ -227,7 +227,7 @@ def kinds(tier):
         Kind("wrapper-calls", run_wrapper, strategy=gen_wrapper(),
              examples={"quick": 3000, "thorough": 120000}),
         Kind("lockdir-tokens", run_tokens, strategy=gen_tokens(),
-             examples={"quick": 1000, "thorough": 40000}),
+             examples={"quick": 3000, "thorough": 40000}),
         Kind("objects", run_graph, strategy=gen_graph(),
-             examples={"quick": 1500, "thorough": 40000}),
+             examples={"quick": 4000, "thorough": 40000}),
     ]
